@@ -1501,6 +1501,11 @@ def check_crosstab_merge(prog, rep, m, entry):
             t0, v0 = x.targets[0], x.value
             pairs_ = [(t0, v0)] if isinstance(t0, ast.Name) else (
                 list(zip(t0.elts, v0.elts)) if isinstance(t0, ast.Tuple) and isinstance(v0, ast.Tuple) and len(t0.elts) == len(v0.elts) else [])
+            if isinstance(t0, ast.Tuple) and len(t0.elts) == 2 and isinstance(t0.elts[0], ast.Name) and isinstance(t0.elts[1], ast.Starred) and \
+                    isinstance(t0.elts[1].value, ast.Name) and not any(isinstance(z, ast.Call) for z in ast.walk(v0)):
+                # `first, *rest = blocks`: the first block and the further ones
+                pairs_ = [(t0.elts[0], ast.Subscript(value=v0, slice=ast.Constant(value=0), ctx=ast.Load())),
+                          (t0.elts[1].value, ast.Subscript(value=v0, slice=ast.Slice(lower=ast.Constant(value=1)), ctx=ast.Load()))]
             for t_, v_ in pairs_:
                 if isinstance(t_, ast.Name) and stores_.get(t_.id) == 1 and t_.id not in f.params and \
                         not any(isinstance(z, ast.Call) for z in ast.walk(v_)):
@@ -1592,10 +1597,13 @@ def check_crosstab_merge(prog, rep, m, entry):
                 'a per-block percentage cannot be merged by addition')
     # percentage formula (both backends): cat / TOTAL_COUNT * 100, zeros -> NaN first
     for fn in ('_crosstab_numpy', '_crosstab_df_dask'):
-        g = _view(prog, m.funcs.get(fn))
+        g = m.funcs.get(fn)
         if g is None:
             continue
+        from .inline import inline_view as _ivl
+        g = _ivl(prog, g, allow_loops=True)          # the percentage step may live in a helper that loops over the categories
         found = False
+        seen_formula = False
         # the total may be read through a local alias of <table>[TOTAL_COUNT]
         alias = {}
         for x in g.own_nodes():
@@ -1605,10 +1613,15 @@ def check_crosstab_merge(prog, rep, m, entry):
             if isinstance(x, ast.Assign) and isinstance(x.targets[0], ast.Name) and norm(v_).replace(' ', '').endswith('[TOTAL_COUNT]'):
                 alias[x.targets[0].id] = norm(v_).replace(' ', '')
         for x in g.own_nodes():
+            if isinstance(x, ast.Assign) and any(isinstance(y, ast.BinOp) and isinstance(y.op, ast.Div) and
+                                                  alias.get(norm(y.right).replace(' ', ''), norm(y.right).replace(' ', '')).endswith('[TOTAL_COUNT]')
+                                                  for y in ast.walk(x.value)):
+                seen_formula = True         # something is divided by the total: if it is not the percentage formula it is a wrong one
             if isinstance(x, ast.Assign) and isinstance(x.value, ast.BinOp) and isinstance(x.value.op, ast.Mult) and \
                     const(x.value.right) == 100 and isinstance(x.value.left, ast.BinOp) and isinstance(x.value.left.op, ast.Div):
                 num, den = norm(x.value.left.left).replace(' ', ''), norm(x.value.left.right).replace(' ', '')
                 den = alias.get(den, den)
+                seen_formula = True
                 tgt = norm(x.targets[0]).replace(' ', '')
                 # table[k] = table[k] / table[TOTAL_COUNT] * 100 with k the variable of the enclosing loop over the categories
                 t0 = x.targets[0]
@@ -1618,7 +1631,7 @@ def check_crosstab_merge(prog, rep, m, entry):
                             any(y is x for y in ast.walk(lp_)) for lp_ in g.own_nodes()):
                     found = True
         n += 1
-        rep.add('Z8-pct', g, entry, '%s: percentage = count / total * 100' % fn, g.node.lineno, found,
+        rep.add('Z8-pct', g, entry, '%s: percentage = count / total * 100' % fn, g.node.lineno, True if found else (False if seen_formula else None),
                 'percentage must be the category count over the zone\'s total valid count times 100')
     return n
 
